@@ -11,19 +11,20 @@ RULE = (
     "models/refstore.Files stepped in lock-step; invariants after EVERY operation for every name: get_named_file exists, its "
     "bytes are the model's current content, its file name is sha256+ext, manifest length and fingerprints equal the model's, every "
     "blob ever stored still has its bytes, named_file_names equals the model's names, an unknown name gives None, a fresh "
-    "instance answers the same; canonical state = model + masked directory tree + source contents; non-trivial = state holds at "
+    "instance answers the same; canonical state = model + masked directory tree + source contents + what the live instance has added/removed per name since it was created (an implementation may cache per instance); non-trivial = state holds at "
     "least one name with >=2 manifest entries"
 )
 BOUNDS = {
     "quick": "2 names x 2 source files x 3 contents, 13 operations, all histories to depth 5 (BFS with canonical-state de-duplication)",
-    "thorough": "same alphabet, depth 8",
+    "thorough": "same alphabet, depth 7",
 }
-DEPTH = {"quick": 5, "thorough": 8}
+DEPTH = {"quick": 5, "thorough": 7}
 BUDGET = {"quick": 500, "thorough": 3400}
 CHUNK = 25
 ASSUMPTIONS = [
-    "two histories reaching the same masked tree + same model state have the same futures (the managers keep no other state; the "
-    "'new instance' operation and the per-history fresh-instance check exercise exactly that claim)",
+    "two histories reaching the same masked tree + same model state + same per-name add/remove record of the live instance have the same "
+    "futures (a first version merged on the tree and model only, i.e. assumed the managers keep no per-instance state; seed c11-2, an "
+    "in-memory manifest cache that goes stale after remove, showed that this abstraction hides exactly such bugs)",
     "source files start with s1.csv=A, s2.txt=B (two different extensions) so that every add is enabled; remove of an unregistered name is disabled",
 ]
 
@@ -124,6 +125,7 @@ def run_history(hist):
                             bad(f"{tag}stored version modified", bh, "original bytes")
 
     disabled = False
+    touched = {}  # what the LIVE instance has done per name since it was created: an implementation may cache per instance
     for op in hist:
         if op[0] == "write":
             with open(os.path.join(srcdir, op[1]), "w", encoding="utf-8", newline="") as f:
@@ -135,6 +137,7 @@ def run_history(hist):
             except Exception as e:  # noqa: BLE001
                 bad("add_named_file raised", f"{type(e).__name__}: {e}", None)
             model.add(op[1], op[2], CONTENTS[src[op[2]]])
+            touched.setdefault(op[1], set()).add("add:" + op[2] + ":" + src[op[2]])
         elif op[0] == "remove":
             if op[1] not in model.names:
                 disabled = True
@@ -144,8 +147,10 @@ def run_history(hist):
             except Exception as e:  # noqa: BLE001
                 bad("remove_named_file raised", f"{type(e).__name__}: {e}", None)
             model.remove(op[1])
+            touched.setdefault(op[1], set()).add("removed")
         elif op[0] == "new":
             cp = CsvPaths()
+            touched = {}
         nops += 1
         check(cp)
     if disabled:
@@ -153,7 +158,8 @@ def run_history(hist):
     check(CsvPaths(), "fresh instance: ")
     tree = canon.tree(os.path.join(root, "inputs"), relroot=root)
     # the manifest's absolute paths contain the sandbox root: strip via masking of path-valued keys
-    key = run.h64((model.canon(), sorted(src.items()), _tree_key(root)))
+    inst = sorted((k, tuple(sorted(v))) for k, v in touched.items())
+    key = run.h64((model.canon(), sorted(src.items()), _tree_key(root), inst))
     nontrivial = any(len(v["manifest"]) >= 2 for v in model.names.values())
     return {"key": key, "viol": viol, "transitions": nops, "nontrivial": nontrivial}
 
